@@ -7,13 +7,12 @@ import (
 	"time"
 
 	"github.com/pkg/errors"
-	"github.com/xelaj/go-dry/ioutil"
 )
 
 type tcpConn struct {
-	cancelReader *ioutil.CancelableReader
-	conn         *net.TCPConn
-	timeout      time.Duration
+	ctx     context.Context
+	conn    *net.TCPConn
+	timeout time.Duration
 }
 
 type TCPConnConfig struct {
@@ -33,10 +32,14 @@ func NewTCP(cfg TCPConnConfig) (Conn, error) {
 	}
 
 	return &tcpConn{
-		cancelReader: ioutil.NewCancelableReader(cfg.Ctx, conn),
-		conn:         conn,
-		timeout:      cfg.Timeout,
+		ctx:     cfg.Ctx,
+		conn:    conn,
+		timeout: cfg.Timeout,
 	}, nil
+}
+
+func (t *tcpConn) cancelled() bool {
+	return t.ctx != nil && t.ctx.Err() != nil
 }
 
 func (t *tcpConn) Close() error {
@@ -50,11 +53,22 @@ func (t *tcpConn) Write(b []byte) (int, error) {
 func (t *tcpConn) Read(b []byte) (int, error) {
 	if t.timeout > 0 {
 		err := t.conn.SetReadDeadline(time.Now().Add(t.timeout))
-		check(err)
+		if err != nil {
+			if t.cancelled() {
+				return 0, context.Canceled
+			}
+			return 0, errors.Wrap(err, "setting read deadline")
+		}
 	}
 
-	n, err := t.cancelReader.Read(b)
+	// whole b must be read: net.TCPConn can return less if data is splitted by segments. reading is
+	// interrupted by closing connection, which is done when context is cancelled (and it can happen at any
+	// moment, cause Disconnect and Reconnect are called from other goroutines)
+	n, err := io.ReadFull(t.conn, b)
 	if err != nil {
+		if t.cancelled() {
+			return 0, context.Canceled
+		}
 		if e, ok := err.(*net.OpError); ok {
 			if e.Err.Error() == "i/o timeout" {
 				// timeout? no worries, but we must reconnect tcp connection
